@@ -166,6 +166,7 @@ const (
 	pcpEmptyPKH
 	pcpOtherRoundCert // a genuine certificate for the same parent from a later round, plus one nil precommit of that round
 	pcpForgedSide     // exact certificate plus a nil entry whose signature is the validator's nil PREVOTE of that round
+	pcpOwnSet         // "certificate" for the parent signed by the validator set of the header's own height, under that set's key hash
 	pcpVariants
 )
 
@@ -192,6 +193,17 @@ func (s *sim) mutatePCP(p tmconsensus.CommitProof, prevSet vset, h uint64, paren
 		} else {
 			p.Proofs[parentHash] = keep
 		}
+	case pcpOwnSet:
+		own := s.setFor(h)
+		if string(own.VS.PubKeyHash) == string(prevSet.VS.PubKeyHash) {
+			return p // same set at both heights: nothing to confuse
+		}
+		q := tmconsensus.CommitProof{Round: p.Round, PubKeyHash: string(own.VS.PubKeyHash), Proofs: map[string][]gcrypto.SparseSignature{}}
+		msg := precommitBytes(h-1, p.Round, parentHash)
+		for i, k := range own.Keys {
+			q.Proofs[parentHash] = append(q.Proofs[parentHash], gcrypto.SparseSignature{KeyID: keyID(i), Sig: sign(k, msg)})
+		}
+		return q
 	case pcpForgedSide:
 		signed := map[int]bool{}
 		for _, sigs := range p.Proofs {
@@ -580,7 +592,7 @@ func (s *sim) execPH(op Op) {
 	if b.Variant == phAltNext {
 		s.altUsed = true
 	}
-	if b.PCP == pcpBelowQuorum || b.PCP == pcpCorruptSig || b.PCP == pcpWrongRound || b.PCP == pcpWrongPKH || b.PCP == pcpForgedSide {
+	if b.PCP == pcpBelowQuorum || b.PCP == pcpCorruptSig || b.PCP == pcpWrongRound || b.PCP == pcpWrongPKH || b.PCP == pcpForgedSide || b.PCP == pcpOwnSet {
 		s.label("must-reject-offered")
 	}
 	res := s.deliverPH(b.PH)
